@@ -650,11 +650,19 @@ def r05_9(ctx: Ctx):
         obs.append(o)
     try:
         for o in c16.r16_4(ctx):
-            if o.detail.startswith(("flag ", "hit_precision can")):
+            if o.detail.startswith(("flag ", "hit_precision can")) or getattr(o, "construct", "") == "eta-precision-guard":
                 o.rule = "R05.9"
                 obs.append(o)
     except AnalysisError as e:
         obs.append(ctx.ob("R05.9", None, None, subject="core.problem.PrecisionCutoffProblem", loc="-", status=INCONCLUSIVE, detail=f"the precision flag is not in the form R16.4 reads ({e})", construct="precision-flag"))
+    # -- the condition the tree consults is the configured object, not a copy (a copied precision condition watches a copy of
+    # the problem that nothing evaluates: run() never sees the condition hold)
+    from . import c06
+
+    for o in c06.r06_13(ctx):
+        if "_gsc" in (o.construct or ""):
+            o.rule = "R05.9"
+            obs.append(o)
     # -- no latched verdicts
     obs.extend(latched_verdicts(ctx, "R05.9"))
     return obs
